@@ -631,11 +631,16 @@ fn parse_non_constant_value(
                 IsographLangTokenKind::IntegerLiteral,
                 semantic_token_legend::ST_NUMBER_LITERAL,
             )?;
-            number
-                .map(|number| {
-                    NonConstantValue::Integer(number.parse().expect("Expected valid integer"))
-                })
-                .wrap_ok()
+            let embedded_location = number.location;
+            number.and_then(|number| match number.parse() {
+                Ok(value) => NonConstantValue::Integer(value).wrap_ok(),
+                // The token only guarantees digits; the value may not fit into an i64.
+                Err(_) => Diagnostic::new(
+                    "Integer literal is out of range".to_string(),
+                    embedded_location.to::<Location>().wrap_some(),
+                )
+                .wrap_err(),
+            })
         })?;
 
         to_control_flow::<_, Diagnostic>(|| {
